@@ -15,7 +15,8 @@ EPILOGUE_CLEAN = [["gate_all"], ["fin_all", "ret"], ["gate_all"], ["stop"], ["ad
 
 
 def _msgs(rng: random.Random, n: int, kinds: List[str], tasks: List[str], instant_p: float = 0.0,
-          outcomes: List[str] = ["ret"], timeout_p: float = 0.0, savefail_p: float = 0.0) -> List[Dict[str, Any]]:
+          outcomes: List[str] = ["ret"], timeout_p: float = 0.0, savefail_p: float = 0.0,
+          ackfail_p: float = 0.0) -> List[Dict[str, Any]]:
     out = []
     for _ in range(n):
         m: Dict[str, Any] = {"kind": rng.choice(kinds)}
@@ -28,6 +29,8 @@ def _msgs(rng: random.Random, n: int, kinds: List[str], tasks: List[str], instan
                 m["timeout"] = rng.choice([2, 5, 7])
             if rng.random() < savefail_p:
                 m["savefail"] = True
+            if rng.random() < ackfail_p:
+                m["ackfail"] = True
         out.append(m)
     return out
 
@@ -70,9 +73,10 @@ def gen_flow(seed: int, n: int) -> List[Scn]:
         W = rng.choice([-1, -1, 2, 5])
         M = rng.randint(1, 8)
         cfg = {"A": A, "P": P, "N": N, "W": W, "ack": rng.choice(["default", "when_received", "when_executed"]),
-               "msgs": _msgs(rng, M, ["valid"] * 5 + ["malformed", "unknown"], ["ta0", "ta0", "ts0", "ta"],
-                             instant_p=0.15, outcomes=["ret", "exc"], timeout_p=0.1)}
-        steps = _flow_steps(rng, cfg, rng.randint(3, 14), ["ret", "ret", "exc", "nores"], midflight=(k % 3 == 0))
+               "ackable": rng.random() < 0.75,
+               "msgs": _msgs(rng, M, ["valid"] * 7 + ["malformed", "unknown", "minus1", "empty"], ["ta0", "ta0", "ts0", "ta"],
+                             instant_p=0.15, outcomes=["ret", "exc", "cerr"], timeout_p=0.1, ackfail_p=0.08)}
+        steps = _flow_steps(rng, cfg, rng.randint(3, 14), ["ret", "ret", "exc", "nores", "cerr"], midflight=(k % 3 == 0))
         mode = rng.random()
         if mode < 0.55:
             steps += EPILOGUE_CLEAN
@@ -92,7 +96,9 @@ def gen_saturation(seed: int, n: int) -> List[Scn]:
         A = rng.randint(1, 4)
         P = rng.randint(0, 4)
         M = A + P + rng.randint(2, 5)
-        cfg = {"A": A, "P": P, "msgs": _msgs(rng, M, ["valid"] * 8 + ["malformed"], ["ta0"], instant_p=0.05)}
+        cfg = {"A": A, "P": P, "ackable": rng.random() < 0.8,
+               "msgs": _msgs(rng, M, ["valid"] * 10 + ["malformed", "unknown", "empty", "minus1"], ["ta0"], instant_p=0.05,
+                             savefail_p=0.1)}
         steps: List[Any] = []
         if rng.random() < 0.5:
             steps.append(["adv_rel", rng.choice([3, 9, 31])])    # idle polling first
@@ -118,14 +124,15 @@ def gen_probe(seed: int, n: int) -> List[Scn]:
         P = rng.choice([0, 1, 2])
         H = rng.randint(1, 6)                 # history length
         probe_n = (A if A else 3) + P + 2
-        hist = _msgs(rng, H, ["valid"] * 6 + ["malformed", "unknown"], ["ta0", "ts0", "ta"], instant_p=0.4,
-                     outcomes=["ret", "exc", "base", "nores"], timeout_p=0.3, savefail_p=0.3)
+        hist = _msgs(rng, H, ["valid"] * 6 + ["malformed", "unknown", "empty", "minus1"], ["ta0", "ts0", "ta"], instant_p=0.4,
+                     outcomes=["ret", "exc", "base", "nores", "cerr"], timeout_p=0.3, savefail_p=0.3, ackfail_p=0.25)
         msgs = hist + [{"kind": "valid", "task": "ta0"} for _ in range(probe_n)]
         mws = []
         if rng.random() < 0.5:
             mode = rng.choice(["pre", "onerr", "post", "postsave"])
             mws = [{mode: rng.choice(["raise", "sync", "async"])}]
-        cfg = {"A": A, "P": P, "msgs": msgs, "mws": mws, "ack": rng.choice(["default", "when_received", "when_executed"])}
+        cfg = {"A": A, "P": P, "msgs": msgs, "mws": mws, "ack": rng.choice(["default", "when_received", "when_executed"]),
+               "ackable": rng.random() < 0.8, "ack_async": rng.random() < 0.3}
         steps: List[Any] = []
         left = H
         while left > 0:
@@ -157,14 +164,14 @@ def gen_pipe(seed: int, n: int) -> List[Scn]:
                "ack_async": rng.random() < 0.5, "ackable": rng.random() < 0.9,
                "backend_suspend": rng.random() < 0.3, "mws": mws,
                "msgs": _msgs(rng, M, ["valid"] * 9 + ["malformed"], ["ta0", "ta0", "ts0"], instant_p=0.3,
-                             outcomes=["ret", "exc", "base", "nores"], timeout_p=0.3, savefail_p=0.3)}
+                             outcomes=["ret", "exc", "base", "nores", "cerr"], timeout_p=0.3, savefail_p=0.3, ackfail_p=0.1)}
         steps: List[Any] = [["arrive", M]]
         for _ in range(rng.randint(0, 10)):
             r = rng.random()
             if r < 0.45:
                 steps.append(["gate_any", rng.randint(0, 4)])
             elif r < 0.8:
-                steps.append(["fin_any", rng.randint(0, 3), rng.choice(["ret", "exc", "base", "nores"])])
+                steps.append(["fin_any", rng.randint(0, 3), rng.choice(["ret", "exc", "base", "nores", "cerr"])])
             else:
                 steps.append(["adv_rel", rng.choice([1, 2, 5])])
         steps += EPILOGUE_CLEAN if rng.random() < 0.8 else []
